@@ -30,6 +30,7 @@ def required_cells(tier):
         for r in ("parallel", "antiparallel", "perpendicular", "generic"):
             req["combo:%s,%s/%s" % (a, b, r)] = 50 if q else 2000
     req["history:direction-vector-reused-after-assignment"] = 300
+    req["history:construction-points-moved-before-first-use"] = 300
     req["nt:int"] = 1000
     req["gen:near-parallel"] = 1000
     return req
@@ -84,13 +85,33 @@ def cases(rng, budget, widx, nworkers, tier):
               "p": gen.rpt(rng), "q": gen.rpt(rng)}
         if rng.random() < 0.1:
             c_["hist"] = {"who": rng.randrange(2), "w0": gen.rdir(rng, 4), "list": rng.random() < 0.4}
+        elif rng.random() < 0.06:
+            c_["args_moved"] = [[rng.randint(-8, 8) / 4.0 for _ in range(3)] for _ in range(2)]
         yield c_
 
 
-def _mk(G, kind, p, d, r, hist=None, nt=float):
+def _mk(G, kind, p, d, r, hist=None, nt=float, args_moved=None):
     if hist is None:
         if kind == "VEC":
             return G.Vector(*[nt(c) for c in d])
+        if args_moved and kind in ("PL", "L"):
+            # the caller goes on using its own second / third construction Points (moves one, overwrites the other)
+            # before the object is used for the first time; the first Point is left alone (a Plane shares it by design)
+            from ..desc import plane_basis
+            P0 = G.Point(*[float(c) for c in p])
+            if kind == "L":
+                P1 = G.Point(*[float(c) for c in K.add(p, d)])
+                o = G.Line(P0, P1)
+                P1.move(G.Vector(*args_moved[0]))
+                return o
+            bu, bv = plane_basis(d)
+            P1 = G.Point(*[float(c) for c in K.add(p, bu)])
+            P2 = G.Point(*[float(c) for c in K.add(p, bv)])
+            o = G.Plane(P0, P1, P2)
+            P2.move(G.Vector(*args_moved[0]))
+            for i in range(3):
+                P1[i] = P1[i] + args_moved[1][i]
+            return o
         return lift((kind, p, d), r, nt)
     # history: the direction Vector is first another direction, is used (angle / length / parallel),
     # and is then overwritten coordinate by coordinate before the operand is built from it
@@ -158,8 +179,13 @@ def judge(case):
         p = tuple(F(int(c)) for c in p)
         q = tuple(F(int(c)) for c in q)
         mu.cell("nt:int")
-    x = _mk(G, ka, p, u, r, h if h and h["who"] == 0 else None, nt)
-    y = _mk(G, kb, q, v, r, h if h and h["who"] == 1 else None, nt)
+    am = case.get("args_moved")
+    if am and nt is float and ("PL" in (ka, kb) or "L" in (ka, kb)):
+        mu.cell("history:construction-points-moved-before-first-use")
+    else:
+        am = None
+    x = _mk(G, ka, p, u, r, h if h and h["who"] == 0 else None, nt, am)
+    y = _mk(G, kb, q, v, r, h if h and h["who"] == 1 else None, nt, am)
     if h:
         mu.cell("history:direction-vector-reused-after-assignment")
     forms = [("f(a,b)", lambda f, a, b: f(a, b), x, y), ("f(b,a)", lambda f, a, b: f(a, b), y, x)]
